@@ -104,12 +104,20 @@ void ProviderPrivate::confirm()
         }
 
         // Update the proposed records
+        const QByteArray requestedName = srvProposed.name();
         ptrProposed.setTarget(name);
         srvProposed.setName(name);
         txtProposed.setName(name);
 
         // Publish the proposed records and announce them
         publish();
+
+        // The proposals go back to the requested name: a later probe (after a
+        // hostname change) starts from it again, so that the alternatives
+        // tried remain name-2, name-3, ... of the name that was asked for
+        ptrProposed.setTarget(requestedName);
+        srvProposed.setName(requestedName);
+        txtProposed.setName(requestedName);
 
         delete prober;
         prober = nullptr;
